@@ -405,6 +405,7 @@ static void set_up_run(const int n, const uint8_t* raw, const uint8_t* lines, co
   const char* suf = ".xml"; for (uint32_t i = 0; suf[i]; i++) x_filename[j++] = (uint8_t)suf[i];
   x_filename[j] = 0;
 }
+static int second_failure_on_first_test;
 static void drive_and_check(const int n) {
   names_init();
   h_set_package(t_package.s);
@@ -413,6 +414,7 @@ static void drive_and_check(const int n) {
     if (t_fails[i]) h_set_failure((uint32_t)i, t_ffile[i].s, t_fline[i], t_fmsg[i].s);
   }
   if (!t_ignored[0]) h_set_printed(0, t_printed.s);
+  if (second_failure_on_first_test && t_fails[0]) h_set_second_failure(0);   /* the report still counts one failed TEST and shows its first failure */
   h_run((uint32_t)n);
   NATIVE_ONLY(OBSERVE(stream_hash);)
   OBSERVE(F_opened);
@@ -447,6 +449,7 @@ static void body_report(const int n, const int KINDS, const int SYM) {
 }
 /* texts: failure message and printed text symbolic (the XML encoding of character data and attribute values) */
 HARNESS(harness_msg_1_1) { body_report(1, 1, SY_FMSG); }
+HARNESS(harness_two_failures_2_01) { second_failure_on_first_test = 1; body_report(2, 1 + 3 * 0, SY_FMSG); }
 HARNESS(harness_group_only_1_0) { body_report(1, 0, SY_GROUP); }
 HARNESS(harness_package_only_1_0) { body_report(1, 0, SY_PACKAGE); }
 HARNESS(harness_name_only_1_2) { body_report(1, 2, SY_NAME); }
